@@ -36,24 +36,38 @@ package block
 //@ ghost field (*Reader) pos map[int]int
 // gi: index of the entry that starts at currentPos (the next one to decode)
 //@ ghost field (*Iterator) gi int
-//@ predicate BlockModel(r *Reader) = r != nil && r.n >= 0 && r.n <= 16*len(r.restartPoints) && 16*len(r.restartPoints) < r.n + 16 && (forall i int, j int :: 0 <= i && i < j && j < r.n ==> blt(r.keys[i], r.keys[j])) && (forall j int :: 0 <= j && j < len(r.restartPoints) ==> r.restartPoints[j] == r.pos[16*j]) && (forall i int :: 0 <= i && i < r.n ==> blen(r.keys[i]) > 0) && r.pos[0] == 0
-//@ predicate Cursor(it *Iterator) = IterOK(it) && BlockModel(it.reader) && 0 <= it.gi && it.gi <= it.reader.n && it.currentPos == it.reader.pos[it.gi]
+//@ predicate BlockModel(r *Reader) = r != nil && r.n >= 0 && r.n <= 16*len(r.restartPoints) && 16*len(r.restartPoints) < r.n + 16 && (forall i int, j int :: 0 <= i && i < j && j < r.n ==> blt(r.keys[i], r.keys[j])) && (forall j int :: 0 <= j && j < len(r.restartPoints) ==> r.restartPoints[j] == r.pos[16*j]) && (forall i int :: 0 <= i && i < r.n ==> blen(r.keys[i]) > 0) && r.pos[0] == 0 && (forall i int :: 0 <= i && i < r.n && i % 16 == 0 ==> r.pos[i+1] == r.pos[i] + fullSize(r.data, r.pos[i]) && 0 <= r.pos[i+1] && r.pos[i+1] < 4294967296)
+//@ predicate CursorLite(it *Iterator) = IterOK(it) && 0 <= it.gi && it.gi <= it.reader.n && it.currentPos == it.reader.pos[it.gi]
+//@ predicate Cursor(it *Iterator) = CursorLite(it) && BlockModel(it.reader)
 //@ predicate At(it *Iterator, i int) = 0 <= i && i < it.reader.n && it.currentKey != nil && bstr(it.currentKey) == it.reader.keys[i] && (it.currentVal == nil) == it.reader.vnil[i] && bstr(it.currentVal) == it.reader.vals[i] && it.currentSeqNum == it.reader.seqs[i] && it.gi == i + 1
 
 //@ func (*Iterator).decodeNext
 //@   safety[C11]
-//@   requires Cursor(it) && (it.gi < it.reader.n && it.gi % 16 != 0 ==> it.currentKey != nil && bstr(it.currentKey) == it.reader.keys[it.gi - 1])
+//@   requires CursorLite(it) && (it.gi < it.reader.n && it.gi % 16 != 0 ==> it.currentKey != nil && bstr(it.currentKey) == it.reader.keys[it.gi - 1])
 //@   modifies it.currentPos, it.currentSeqNum, it.restartIdx, it.gi
 //@   ensures[A] old(it.gi) >= it.reader.n ==> !result2 && it.gi == old(it.gi) && it.currentPos == old(it.currentPos) && it.currentSeqNum == old(it.currentSeqNum)
 //@   ensures[A] old(it.gi) < it.reader.n ==> result2 && result0 != nil && fresh(result0) && bstr(result0) == it.reader.keys[old(it.gi)] && (result1 == nil) == it.reader.vnil[old(it.gi)] && bstr(result1) == it.reader.vals[old(it.gi)] && it.currentSeqNum == it.reader.seqs[old(it.gi)] && it.gi == old(it.gi) + 1 && it.currentPos == it.reader.pos[it.gi]
 //@   ghost exit: it.gi = ite(it.gi < it.reader.n, it.gi + 1, it.gi)
+// Size in bytes of the full-key entry that starts at byte p: keylen(2) key [seq(8) if at least 12 bytes follow the key]
+// vallen(4) value (a deletion marker 0xFFFFFFFF has no value bytes).
+//@ pure func bKeyLen(d []byte, p int) int = d[p] + 256*d[p+1]
+//@ pure func bSeqLen(d []byte, p int) int = ite(len(d) - (p + 2 + bKeyLen(d, p)) >= 12, 8, 0)
+//@ pure func bValLen(d []byte, p int) int = d[p+2+bKeyLen(d, p)+bSeqLen(d, p)] + 256*d[p+2+bKeyLen(d, p)+bSeqLen(d, p)+1] + 65536*d[p+2+bKeyLen(d, p)+bSeqLen(d, p)+2] + 16777216*d[p+2+bKeyLen(d, p)+bSeqLen(d, p)+3]
+//@ pure rec func fullSize(d []byte, p int) int = 2 + bKeyLen(d, p) + bSeqLen(d, p) + 4 + ite(bValLen(d, p) == 4294967295, 0, bValLen(d, p))
+// decodeCurrent: CHECKED against the body - a failed decode changes nothing; a successful one installs the returned
+// key/value as the current ones and moves the position forward by exactly the size of the entry it decoded (this is
+// what keeps Next from yielding the entry again).  ASSUMED - it succeeds exactly on the entries of the model and returns
+// their content.  The model ties entry positions to those sizes (BlockModel), so "positioned on the next entry" follows.
 //@ func (*Iterator).decodeCurrent
 //@   safety[C11]
-//@   requires Cursor(it) && (it.gi % 16 == 0 || it.gi == it.reader.n)
+//@   requires CursorLite(it) && (it.gi % 16 == 0 || it.gi == it.reader.n)
 //@   modifies it.currentPos, it.currentSeqNum, it.currentKey, it.currentVal, it.gi
-//@   ensures[A] old(it.gi) >= it.reader.n ==> !result2 && it.gi == old(it.gi) && it.currentPos == old(it.currentPos) && it.currentSeqNum == old(it.currentSeqNum) && it.currentKey == old(it.currentKey) && it.currentVal == old(it.currentVal)
-//@   ensures[A] old(it.gi) < it.reader.n ==> result2 && At(it, old(it.gi)) && it.currentKey == result0 && it.currentVal == result1 && it.currentPos == it.reader.pos[it.gi]
-//@   ghost exit: it.gi = ite(it.gi < it.reader.n, it.gi + 1, it.gi)
+//@   ensures[C11] !result2 ==> it.currentPos == old(it.currentPos) && it.currentSeqNum == old(it.currentSeqNum) && it.currentKey == old(it.currentKey) && it.currentVal == old(it.currentVal) && it.gi == old(it.gi)
+//@   ensures[C11] result2 ==> it.currentKey == result0 && it.currentVal == result1 && result0 != nil && it.gi == old(it.gi) + 1
+//@   ensures[C11] result2 ==> it.currentPos == (old(it.currentPos) + fullSize(it.reader.data, old(it.currentPos))) % 4294967296
+//@   ensures[A] result2 == (old(it.gi) < it.reader.n)
+//@   ensures[A] result2 ==> bstr(result0) == it.reader.keys[old(it.gi)] && (result1 == nil) == it.reader.vnil[old(it.gi)] && bstr(result1) == it.reader.vals[old(it.gi)] && it.currentSeqNum == it.reader.seqs[old(it.gi)]
+//@   ghost exit: it.gi = ite(result2, it.gi + 1, it.gi)
 
 // The cursor protocol.  Positioned: on entry i (At), or past the end (currentKey == nil).
 //@ func (*Iterator).SeekToFirst
